@@ -376,6 +376,13 @@ func runChaos(r *monitor.Run, p Params) {
 		return
 	}
 	c := &chaos{p: p, b: b, r: r, ops: map[string]int64{}}
+	// the tear-down of a connection passes the close.* sites: they are logged next to the hook events
+	yield.Observe(func(site string) {
+		if strings.HasPrefix(site, "close.") {
+			b.Log.Add(broker.Event{Kind: "site:" + site})
+		}
+	})
+	defer yield.Observe(nil)
 	var half []net.Conn
 	if p.HalfOpen {
 		for i := 0; i < 4; i++ {
@@ -427,6 +434,22 @@ func runChaos(r *monitor.Run, p Params) {
 	select {
 	case <-sdone:
 	case <-time.After(reqTimeout + 20*time.Second):
+	}
+	// clients that leave on their own just as the broker is stopped: their tear-down is under way when Stop
+	// looks for connections to close and to wait for
+	c.mu.Lock()
+	leaving := append([]*wire.Client(nil), c.conns...)
+	c.mu.Unlock()
+	dmu.Lock()
+	drng.Shuffle(len(leaving), func(i, j int) { leaving[i], leaving[j] = leaving[j], leaving[i] })
+	gaps := make([]int, 12)
+	for i := range gaps {
+		gaps[i] = drng.Intn(300)
+	}
+	dmu.Unlock()
+	for i := 0; i < len(leaving) && i < 12; i++ {
+		leaving[i].Close()
+		time.Sleep(time.Duration(gaps[i]) * time.Microsecond)
 	}
 	ctx, cancel := context.WithTimeout(context.Background(), 20*time.Second)
 	t0 := time.Now()
@@ -532,6 +555,17 @@ func runChaos(r *monitor.Run, p Params) {
 	for _, cl := range c.conns {
 		cl.Close()
 	}
+	// Stop waits for every connection: nothing of a connection's tear-down happens after OnStop has run
+	// (will publications are not looked at: a delayed will may fire later by design of the test's will delays)
+	stopAt := -1
+	for i, e := range b.Log.Events() {
+		if e.Kind == "OnStop" && stopAt < 0 {
+			stopAt = i
+		} else if stopAt >= 0 && (e.Kind == "OnClosed" || e.Kind == "OnSessionTerminated" || strings.HasPrefix(e.Kind, "site:close.")) {
+			c.add("stop.teardown_after_onstop:"+e.Kind, fmt.Sprintf("%s of %q was reported after OnStop had run: Stop did not wait for that connection", e.Kind, e.Client), nil)
+			break
+		}
+	}
 	// recovered panics are reported through OnClosed
 	for _, e := range b.Log.Events() {
 		if e.Kind == "OnClosed" && (strings.Contains(e.Err, "runtime error") || strings.Contains(e.Err, "nil pointer") || strings.Contains(e.Err, "index out of range") || strings.Contains(e.Err, "must call ReadInflight")) {
@@ -569,8 +603,78 @@ func sortStrings(s []string) {
 	}
 }
 
+// stopDuringTeardown holds one connection in the tail of its own tear-down (after it has been unregistered, at
+// the site close.before_stats) and calls Stop: Stop must not return while that connection's goroutine is held.
+func stopDuringTeardown(r *monitor.Run) {
+	yield.Enable(1, false)
+	b, err := broker.Start(broker.Options{})
+	if err != nil {
+		r.Inconclusive(err.Error())
+		return
+	}
+	entered, release := make(chan struct{}), make(chan struct{})
+	var once sync.Once
+	yield.Observe(func(site string) {
+		if site == "close.before_stats" {
+			once.Do(func() {
+				close(entered)
+				select {
+				case <-release:
+				case <-time.After(10 * time.Second):
+				}
+			})
+		}
+	})
+	defer yield.Observe(nil)
+	cl, err := wire.Dial("held", b.Addr, mqttx.V5)
+	if err != nil {
+		r.Inconclusive(err.Error())
+		close(release)
+		b.Stop(5 * time.Second)
+		return
+	}
+	if _, err := cl.Connect(&mqttx.Packet{ClientID: "held", CleanStart: true}, reqTimeout); err != nil {
+		r.Inconclusive(err.Error())
+		close(release)
+		b.Stop(5 * time.Second)
+		return
+	}
+	cl.Close()
+	select {
+	case <-entered:
+	case <-time.After(10 * time.Second):
+		r.Inconclusive("stopDuringTeardown: the connection never reached close.before_stats")
+		close(release)
+		b.Stop(5 * time.Second)
+		return
+	}
+	done := make(chan error, 1)
+	go func() {
+		ctx, cancel := context.WithTimeout(context.Background(), 8*time.Second)
+		defer cancel()
+		done <- b.Srv.Stop(ctx)
+	}()
+	r.Eval(1)
+	r.Count("stops_during_a_held_teardown", 1)
+	select {
+	case err := <-done:
+		r.Violation("stop.returned_during_teardown", fmt.Sprintf("Stop returned (%v) while the goroutine of a connection was still inside its tear-down", err), nil)
+		close(release)
+		return
+	case <-time.After(400 * time.Millisecond):
+		r.Nontrivial("stop-during-teardown")
+	}
+	close(release)
+	select {
+	case <-done:
+	case <-time.After(10 * time.Second):
+		r.Violation("stop.hangs", "Stop did not return after the held connection was released", nil)
+	}
+}
+
 // Run is the entry point.
 func Run(r *monitor.Run) {
+	stopDuringTeardown(r)
 	rng := r.Rand("chaos")
 	n := r.Pick(4, 40)
 	procs := []int{16, 2, 4, 1}
